@@ -176,6 +176,19 @@ Definition movavg_def (n : nat) (ps : list pt) : list (Z * F) :=
                  f_div fo (f_ofZ fo (wrap64 (sumZ (map pt_v (firstn n (skipn k ps)))))) (f_ofZ fo (Z.of_nat n))))
       (seq 0 (length ps + 1 - n)).
 
+(** the same definition as a sliding window: [w] holds the last (at most n) values, oldest
+    first; a point is emitted whenever the window holds n values. *)
+Fixpoint movavg_win (n : nat) (w : list Z) (ps : list pt) : list (Z * F) :=
+  match ps with
+  | [] => []
+  | p :: r =>
+      let w1 := w ++ [pt_v p] in
+      let w' := if Nat.ltb n (length w1) then tl w1 else w1 in
+      (if Nat.eqb (length w') n
+       then [(pt_t p, f_div fo (f_ofZ fo (wrap64 (sumZ w'))) (f_ofZ fo (Z.of_nat n)))] else [])
+      ++ movavg_win n w' r
+  end.
+
 (* ---------------- integral (functions.go:1666-1773) ---------------- *)
 (** IteratorOptions.Window (iterator.go:791) with Location = nil and Interval.Offset = 0.
     [interval = 0]: no GROUP BY time: [opt.StartTime, opt.EndTime+1]. *)
@@ -267,7 +280,13 @@ Fixpoint trapz_from (o : iopt) (acc : F) (ps : list pt) : F :=
   | [] => acc
   end.
 Definition int_start (o : iopt) : Z :=
-  if io_asc o then (if io_start o =? MinTime then 0 else io_start o) else wrap64 (io_end o + 1).
+  let s := if io_asc o then io_start o else wrap64 (io_end o + 1) in
+  if s =? MinTime then 0 else s.
+Definition int_wend (o : iopt) : Z := if io_asc o then wrap64 (io_end o + 1) else io_start o.
+(** no GROUP BY time, and every point lies inside the query's time range *)
+Definition no_cross (o : iopt) (ps : list pt) : Prop :=
+  io_interval o = 0 /\
+  Forall (fun p => if io_asc o then pt_t p < int_wend o else int_wend o < pt_t p) ps.
 Definition integral_def (o : iopt) (ps : list pt) : list (Z * F) :=
   match ps with
   | [] => []
